@@ -28,6 +28,28 @@ DoMkWin(cls, kind, src, off, len, pos) ==
   ELSE LET w == WindowOf(src, off, len) IN
        OkV(VObj(cls, w, IF IsStream(cls) THEN OrElse(pos, 0) ELSE -1))
 
+\* Derivation routes (C04).  User-held buffers are not bitstring objects: creating and mutating them
+\* must change no object at all (the trace validator checks the whole state after every event).
+DeriveOps == {"setbits", "getbits", "mkext", "mkfromext", "extmut", "tobitarray", "packobj", "dtypebuild_bits",
+              "dtypeparse_bits"}
+DeriveStep(objs, opts, call) ==
+  LET op == call.op
+      o == objs[call.t] IN
+  CASE op = "setbits" ->
+         IF ~IsMutable(o.c) THEN Raises({"*", "Internal"})
+         ELSE [OkNone(One(call.t, Rec(o.c, XV(objs, call.xs[1]), IF IsStream(o.c) THEN 0 ELSE -1))) EXCEPT !.free = {"pos"}]
+    [] op = "getbits" -> OkV(VNew(o.c, o.v))
+    [] op \in {"mkext", "extmut"} -> OkV(VNone)
+    [] op = "mkfromext" -> OkV(VNew(call.sa[1], XV(objs, call.xs[1])))
+    [] op = "tobitarray" -> OkV(VInts(o.v))
+    [] op = "packobj" ->
+         LET parts == [i \in 1..Len(call.xs) |-> XV(objs, call.xs[i])] \o [i \in 1..Len(call.ia) |-> UBits(call.ia[i], 8)]
+             k == Len(parts) IN
+         \* pack lays the tokens out in reverse order under lsb0
+         OkV(VNew("BitStream", ConcatAll([i \in 1..k |-> parts[IF opts.lsb0 THEN k + 1 - i ELSE i]])))
+    [] op = "dtypebuild_bits" -> OkV(VNew("Bits", XV(objs, call.xs[1])))
+    [] op = "dtypeparse_bits" -> OkV(VNew("Bits", XV(objs, call.xs[1])))
+
 SerialOps == {"tofile", "mkwin"}
 SerialStep(objs, opts, call) ==
   LET op == call.op
